@@ -685,11 +685,22 @@ class Zeroconf(QuietLogger):
                     log_debug, send_transport, packet, packet_num, out, addr, port, v6_flow_scope
                 )
 
+    def _cancel_service_browsers(self) -> None:
+        """Cancel the thread based browsers the application created itself.
+
+        A ServiceBrowser(zc, ...) is a listener of this instance like the ones
+        made by add_service_listener: it ends with the instance.
+        """
+        for listener in self.listeners.copy():
+            if isinstance(listener, ServiceBrowser):
+                listener.cancel()
+
     def _close(self) -> None:
         """Set global done and remove all service listeners."""
         if self.done:
             return
         self.remove_all_service_listeners()
+        self._cancel_service_browsers()
         self.done = True
 
     def _shutdown_threads(self) -> None:
@@ -721,6 +732,7 @@ class Zeroconf(QuietLogger):
                 # probing may complete and announce its service. Look once
                 # more, and stop sending in the same step of the event loop.
                 self.remove_all_service_listeners()
+                self._cancel_service_browsers()
                 run_coro_with_timeout(
                     self._async_unregister_all_services_and_stop(),
                     self.loop,
